@@ -118,8 +118,10 @@ def run_history(case, rng):
         foreign = rng.random() < 0.4
         foreign_reads = []
 
+        deep = rng.random() < 0.4
+
         def root(number, kind=kind, log=log, raised=raised, n_roots=n_roots,
-                 nested_log=nested_log):
+                 nested_log=nested_log, deep=deep):
             async def body():
                 log.append(('begin', number, time.now))
                 if number == 0 and foreign:
@@ -129,9 +131,19 @@ def run_history(case, rng):
                     before = time.now
                     inner_log = []
 
+                    async def innermost():
+                        await (time + 2)
+
                     async def inner():
                         inner_log.append(time.now)
-                        await (time + 7)
+                        if deep:
+                            # a third level: a run nested in the nested run
+                            await (time + 3)
+                            usim.run(innermost(), start=-50)
+                            stats['nested_runs'] += 1
+                            await (time + 4)
+                        else:
+                            await (time + 7)
                         inner_log.append(time.now)
                         if kind == 'nested-fail':
                             raise Boom('inner')
